@@ -13,14 +13,15 @@ func init() {
 	imports := "From Coq Require Import QArith.\nFrom Verif Require Import Gen.Facts Model.TokenBucket Model.RateLimit Corr.RateLimitCorr Corr.C19."
 	nt := func(c *Case) bool { return c.Tags["abusive_denied"] > 0 && c.Tags["compliant_admitted"] > 0 }
 	Props["C19"] = &Prop{Imports: imports, Gen: func(r *Rand, idx int, tier string) Case { return genC19(r, idx, true) },
-		Corpus: corpusC19, NonTrivial: nt, ShardSize: 60}
+		Corpus: corpusC19, NonTrivial: nt, ShardSize: 25}
 	Props["C19ns"] = &Prop{Imports: imports, Gen: func(r *Rand, idx int, tier string) Case { return genC19(r, idx, false) },
-		NonTrivial: nt, ShardSize: 60}
+		NonTrivial: nt, ShardSize: 25}
 }
 
 // shadow is the generator's own pacing aid for compliant clients (not an oracle).
 type shadow struct {
 	tokens, max, rate float64
+	exact             bool // timings on the dyadic grid: the float arithmetic is exact
 	last              int64
 }
 
@@ -29,7 +30,7 @@ func (s *shadow) ready(now int64) bool {
 	if t > s.max {
 		t = s.max
 	}
-	return t >= 1.000001
+	return t >= 1.000001 || (t >= 1 && (s.exact || t == s.max))
 }
 func (s *shadow) take(now int64) {
 	t := s.tokens + float64(now-s.last)/1e9*s.rate
@@ -63,8 +64,8 @@ func genC19(r *Rand, idx int, strict bool) Case {
 	var oks []cl
 	for i := 0; i < nOk; i++ {
 		k := cl{ip: uint64(nAb + i), conn: uint64(nAb + i)}
-		k.ipS = &shadow{tokens: float64(c.PerIPBurstSize), max: float64(c.PerIPBurstSize), rate: float64(c.PerIPRequestsPerSecond), last: -1}
-		k.cS = &shadow{tokens: float64(c.PerConnectionBurstSize), max: float64(c.PerConnectionBurstSize), rate: float64(c.PerConnectionRequestsPerSecond), last: -1}
+		k.ipS = &shadow{tokens: float64(c.PerIPBurstSize), max: float64(c.PerIPBurstSize), rate: float64(c.PerIPRequestsPerSecond), last: -1, exact: strict}
+		k.cS = &shadow{tokens: float64(c.PerConnectionBurstSize), max: float64(c.PerConnectionBurstSize), rate: float64(c.PerConnectionRequestsPerSecond), last: -1, exact: strict}
 		oks = append(oks, k)
 	}
 	rates := []float64{float64(c.GlobalRequestsPerSecond), float64(c.PerIPRequestsPerSecond), float64(c.PerConnectionRequestsPerSecond)}
